@@ -80,6 +80,34 @@ def check_read_logged(c, repo, f):
         if n.kind == 'stmt' and isinstance(n.ast, (ast.Assign, ast.AugAssign)):
             for nm in assigned_names(n.ast):
                 supervars.add(nm)
+    # lists that only ever collect base-class reads (`chunks = [incoming]` ... `chunks.append(chunk)`), joined with the EMPTY string at the end
+    def list_mutations(name):
+        out = []
+        for k in calls_in(f.node):
+            if isinstance(k.func, ast.Attribute) and isinstance(k.func.value, ast.Name) and k.func.value.id == name:
+                out.append(k)
+        return out
+
+    def super_list(name):
+        binds = [n.ast for n in g.nodes if n.kind == 'stmt' and isinstance(n.ast, (ast.Assign, ast.AugAssign)) and name in assigned_names(n.ast)]
+        if not binds or not all(isinstance(b, ast.Assign) and isinstance(b.value, ast.List) and all(super_only(x) for x in b.value.elts) for b in binds):
+            return False
+        for k in list_mutations(name):
+            if k.func.attr == 'append' and len(k.args) == 1 and super_only(k.args[0]):
+                continue
+            if k.func.attr in ('count', 'index', 'copy'):
+                continue
+            return False
+        # handed to nothing but len() / join
+        for x in ast.walk(f.node):
+            if isinstance(x, ast.Call) and any(isinstance(a, ast.Name) and a.id == name for a in x.args):
+                if not ((isinstance(x.func, ast.Name) and x.func.id == 'len') or (isinstance(x.func, ast.Attribute) and x.func.attr == 'join')):
+                    return False
+        return True
+
+    def empty_sep(e):
+        return (isinstance(e, ast.Constant) and e.value in ('', b'')) or (isinstance(e, ast.Call) and norm(e.func) == 'self.string_type' and not e.args and not e.keywords)
+
     def super_only(e):
         # a base-class read, or the concatenation of values that are base-class reads
         if from_super(e):
@@ -88,7 +116,18 @@ def check_read_logged(c, repo, f):
             return e.id in supervars
         if isinstance(e, ast.BinOp) and isinstance(e.op, ast.Add):
             return super_only(e.left) and super_only(e.right)
+        if isinstance(e, ast.Call) and isinstance(e.func, ast.Attribute) and e.func.attr == 'join' and len(e.args) == 1 and isinstance(e.args[0], ast.Name) \
+                and empty_sep(e.func.value):
+            nm = e.args[0].id
+            if nm in listing:
+                return False          # (a list that is joined into one of its own elements)
+            listing.add(nm)
+            try:
+                return super_list(nm)
+            finally:
+                listing.discard(nm)
         return False
+    listing = set()
     changed = True
     while changed:
         changed = False
@@ -101,7 +140,7 @@ def check_read_logged(c, repo, f):
                             changed = True
     for r in rets:
         v = r.ast.value
-        if from_super(v) or (isinstance(v, ast.Name) and v.id in supervars):
+        if from_super(v) or (isinstance(v, ast.Name) and v.id in supervars) or (isinstance(v, ast.Call) and super_only(v)):
             # already logged by the base class: there must be no second log on this path
             extra = [n for n, k in logs if g.path(n, r, skip_labels=('exc',)) is not None]
             c.check(not extra, f, r.ast, 'returns data read (and logged) by the base class; not logged a second time here',
